@@ -16,6 +16,7 @@ mod w2_gen;
 mod w2_ops;
 mod w2_str;
 mod w2_vec;
+mod w3;
 
 #[global_allocator]
 static SIM: simalloc::SimAlloc = simalloc::SimAlloc;
